@@ -204,6 +204,11 @@ impl Ctl {
 }
 
 /// Cache interposer: delegates everything, gates at entry and exit.
+thread_local! {
+    /// set by a harness thread that wants its next `Cache::set` (through a GateCache) to panic once
+    pub static INJECT_PANIC_IN_SET: std::cell::Cell<bool> = const { std::cell::Cell::new(false) };
+}
+
 pub struct GateCache {
     pub inner: Arc<dyn Cache + Send + Sync>,
 }
@@ -236,6 +241,10 @@ impl Cache for GateCache {
     }
     fn set(&self, key: KeyType, record: Record) -> CResult<SetStatus> {
         pt("gc.set.enter");
+        // fault injection: the calling thread asked for its next store to fail hard inside the cache
+        if INJECT_PANIC_IN_SET.with(|f| f.replace(false)) {
+            panic!("injected fault: panic inside Cache::set");
+        }
         let r = self.inner.set(key, record);
         pt("gc.set.exit");
         r
